@@ -29,6 +29,9 @@ ASSUMPTIONS = [
     "exception classes raised by the configuration phase are not observable from outside (only exit code 2); the model is fed the "
     "catch-all class",
     "observed schedule replayed in the Lean model; theorems hold for every legal schedule",
+    "stream 'provisional' (directory-pattern products / dependencies and task generators from the C18 project generator, producers that "
+    "write 0 … n files, counts edited between builds): checked by the implementation-only report / exit-code clauses; the M7 replay of "
+    "such projects is C18's",
 ]
 
 CONFIG_FAULTS = {
@@ -159,6 +162,14 @@ def irrelevant_options(rng):
     return kw
 
 
+def limit_source(rng, cfg):
+    """where the failure limit comes from: kwarg max_failures / kwarg stop_after_first_failure / config file / both (same value)"""
+    n = cfg.get("maxfail")
+    if n is not None:
+        cfg["maxfail_src"] = rng.choice(["kwarg", "kwarg", "config", "both"] + (["kwarg_stop", "config_stop"] if n == 1 else []))
+    return cfg
+
+
 def gen_prog_case(rng):
     """programmatic-tasks stream: the task functions of a one-module project are handed to build(tasks=[…]) as objects — once each,
     with one of them twice, or next to `paths` that collect the same functions again"""
@@ -183,6 +194,7 @@ def gen_prog_case(rng):
         cfg["force"] = True
     if rng.random() < 0.25:
         cfg["maxfail"] = rng.choice([1, 2])
+        limit_source(rng, cfg)
     steps = [["build", cfg, {}, irrelevant_options(rng)]]
     if rng.random() < 0.5:
         steps.append(["build", dict(cfg), {}, irrelevant_options(rng)])
@@ -202,6 +214,7 @@ def gen_case(rng, shape=None):
         cfg["dry"] = True
     if rng.random() < 0.25:
         cfg["maxfail"] = rng.choice([1, 2])
+        limit_source(rng, cfg)
     if rng.random() < 0.2:
         cfg["k"] = " or ".join(project.tname(t["id"]) for t in rng.sample(spec["tasks"], rng.randint(1, 2)))
     kw_extra = {}
@@ -343,6 +356,7 @@ def run_case(server, case):
                 continue
             cfg, kw_extra = step[1], step[2]
             project.clear_log(root)
+            project.write_config_file(root, cfg)
             pre = project.snapshot_nodes(root, spec)
             kw = builder.cfg_to_kw(cfg)
             kw.update(step[3] if len(step) > 3 else {})      # options that must be irrelevant
@@ -577,6 +591,89 @@ def replay_in_model(drv, case, recs):
 # campaign
 # ------------------------------------------------------------------------------------------------
 
+# ------------------------------------------------------------------------------------------------
+# stream "provisional": directory-pattern (DirectoryNode) products and dependencies, task generators — the C18 project
+# generator (impl/prov_api.py), judged by this property's report / exit-code clauses (implementation-only)
+# ------------------------------------------------------------------------------------------------
+
+def prov_histories(ctx):
+    """projects whose producers often have ONLY a directory-pattern product; the number of files a producer writes into its
+    directory is the content of an input file (0 … 6) and is edited between builds (n files, then 0 files, then n again), consumers
+    depend on the directories, generators define tasks per received file"""
+    from impl import prov_api
+    rng = ctx.rng
+    hs = []
+    for i in range(ctx.scale(18, 250)):
+        spec = prov_api.gen_spec(rng, overlap_p=0.0, fail_p=0.08)   # graphs that stay well-formed when resolved (C08 quantifier)
+        steps = prov_api.gen_steps(rng, spec, rounds=(1, 3))
+        cnts = [t["cnt"] for t in spec["tasks"] if t.get("cnt") is not None and t["pprods"]]
+        if cnts and rng.random() < 0.7:
+            # an empty match on the path where the producer runs: the count goes to 0 (first build, or after a build with files)
+            c = rng.choice(cnts)
+            if rng.random() < 0.4:
+                spec["inputs"][str(c)] = 0
+            steps += [["write", c, 0], ["build"], ["write", c, rng.randint(1, 4)], ["build"]]
+        hs.append({"tag": "provisional", "spec": spec, "steps": steps})
+    return hs
+
+
+def prov_oracle(hist, recs):
+    from impl import prov_api
+    bad = []
+    for bi, rec in enumerate(recs):
+        if rec["step"][0] != "build":
+            continue
+        obs = rec["obs"]
+        if obs.get("raised") or obs.get("died") or obs.get("timeout"):
+            bad.append(("returns", f"build {bi}: pytask.build raised {obs.get('raised')} / died / did not terminate", None))
+            continue
+        order = [prov_api.name_to_id(r[0]) for r in obs["reports"]]
+        out = {prov_api.name_to_id(r[0]): r[1] for r in obs["reports"]}
+        collected = [prov_api.name_to_id(n) for n in obs.get("collected", [])]
+        failed = [t for t in order if out[t] == "FAIL"]
+        starts = [int(e[1]) for e in obs["log"] if e[0] == "S"]
+        ends = [int(e[1]) for e in obs["log"] if e[0] == "E"]
+        if len(order) != len(set(order)):
+            bad.append(("one_report", f"build {bi}: a task has more than one report: {order}", None))
+        if sorted(collected) != sorted(order):
+            bad.append(("one_report", f"build {bi}: collected tasks {sorted(collected)} but reports for {sorted(order)} (no failure limit was set); "
+                                      f"log {obs['log'][:12]}", None))
+        if obs["exit"] != (1 if failed else 0):
+            bad.append(("exit", f"build {bi}: exit code {obs['exit']} with failed tasks {failed}; reports {obs['reports']}", None))
+        for t, o in out.items():
+            if o == "SUCCESS" and not (starts.count(t) == 1 and ends.count(t) == 1):
+                bad.append(("success", f"build {bi}: task {t} reported SUCCESS but started {starts.count(t)}x / completed {ends.count(t)}x", None))
+            if o in engine.OUTCOMES_NOT_RUN and t in starts:
+                bad.append(("not_run", f"build {bi}: task {t} reported {o} but its function ran", None))
+        for t in starts:
+            if t not in out:
+                bad.append(("one_report", f"build {bi}: body of task {t} ran but the task has no report", None))
+    return bad
+
+
+def run_prov_stream(ctx):
+    from impl import prov_api
+    hs = prov_histories(ctx)
+    nseeds = 6
+    pool = prov_api.TimedPool([ctx.rng.randrange(1, 4_000_000_000) for _ in range(nseeds)])
+    try:
+        with ThreadPoolExecutor(max_workers=nseeds) as ex:
+            all_recs = list(ex.map(lambda a: prov_api.run_history(pool.pick(a[0]), a[1]), enumerate(hs)))
+    finally:
+        pool.close()
+    for h, recs in zip(hs, all_recs):
+        builds = [r for r in recs if r["step"][0] == "build"]
+        zero = any(r["step"][0] == "write" and r["step"][2] == 0 for r in recs)
+        ctx.case([h["spec"], h["steps"]], zero or any(b["obs"].get("exit") for b in builds),
+                 {"stream": "provisional", "tasks": len(h["spec"]["tasks"]), "builds": len(builds),
+                  "first_build": {k: builds[0]["obs"].get(k) for k in ("exit", "reports")} if builds else None})
+        ctx.dist["shape=provisional"] += 1
+        for b in builds:
+            ctx.dist[f"prov-exit={b['obs'].get('exit')}"] += 1
+        for kind, msg, finding in prov_oracle(h, recs):
+            ctx.violation(f"{kind}: {msg}", {"history": h, "layer": "provisional"}, finding=finding)
+
+
 def cases(ctx):
     rng = ctx.rng
     cs = corpus()
@@ -638,9 +735,19 @@ def run(ctx):
                 "pairs × {force, dry-run, -k, max_failures}, 1-2 builds each; non-trivial = some build ends with a non-zero exit code or raises; "
                 "distinct by (spec, steps)")
     run_cases(ctx, cases(ctx))
+    run_prov_stream(ctx)
 
 
 def replay(ctx, obj):
+    if obj["input"].get("layer") == "provisional":
+        from impl import prov_api
+        srv = prov_api.TimedServer(obj.get("seed", 0) + 1)
+        try:
+            recs = prov_api.run_history(srv, obj["input"]["history"])
+        finally:
+            srv.close()
+        bad = prov_oracle(obj["input"]["history"], recs)
+        return (False, bad[0][1]) if bad else (True, "reports and exit codes are truthful on the stored provisional history")
     run_cases(ctx, [obj["input"]["case"]] * 2)
     fresh = [v for v in ctx.violations if not v["finding"]]
     if fresh:
